@@ -86,13 +86,17 @@ def base58_decode(v: bytes) -> bytes:
     :returns: bytes
     """
     try:
-        prefix_len = next(
-            len(encoding[2]) for encoding in base58_encodings if len(v) == encoding[1] and v.startswith(encoding[0])
+        bin_prefix = next(
+            encoding[2] for encoding in base58_encodings if len(v) == encoding[1] and v.startswith(encoding[0])
         )
     except StopIteration as e:
         raise ValueError('Invalid encoding, prefix or length mismatch.') from e
 
-    return base58.b58decode_check(v)[prefix_len:]
+    data = base58.b58decode_check(v)
+    if not data.startswith(bin_prefix):
+        # NOTE: right human-readable prefix and length, but it is not an encoding of this kind
+        raise ValueError('Invalid encoding, binary prefix mismatch.')
+    return data[len(bin_prefix) :]
 
 
 def base58_encode(v: bytes, prefix: bytes) -> bytes:
